@@ -33,6 +33,13 @@ def same(a, b):
     return sa == sb and all(x.equals(y) for x, y in zip(fa, fb))
 
 
+def transposed(v):
+    A = v if isinstance(v, Arr) else materialise(v)
+    if A is None or len(A.shape) != 2:
+        return v
+    return Arr([[A.data[j][i] for j in range(A.shape[0])] for i in range(A.shape[1])])
+
+
 def run(ctx):
     from xfabsa import numeric as _N
     _N.alias_rule(ctx, 'C02', ['xfab/tools.py', 'xfab/laue.py'])
@@ -51,8 +58,12 @@ def run(ctx):
                 log.append((name, args))
                 if name == "form_b_mat":
                     return Opaque("form_b_mat(%s)" % vkey(args[0]), (3, 3))
-                if name in ("ubi_to_cell", "a_to_cell"):
-                    return Opaque("%s(%s)" % (name, vkey(args[0])), (6,))
+                if name == "ubi_to_cell":
+                    # one opaque value for ubi_to_cell(X) and a_to_cell(X'): the rule C02:shape:ubi_to_cell below decides that they
+                    # are the same function
+                    return Opaque("a_to_cell(%s)" % vkey(transposed(args[0])), (6,))
+                if name == "a_to_cell":
+                    return Opaque("a_to_cell(%s)" % vkey(args[0] if not isinstance(args[0], Opaque) else (materialise(args[0]) or args[0])), (6,))
                 if name == "ub_to_u_b":
                     return (Opaque("ub_to_u_b.U(%s)" % vkey(args[0]), (3, 3)), Opaque("ub_to_u_b.B(%s)" % vkey(args[0]), (3, 3)))
                 if name in ("ubi_to_u",):
@@ -85,7 +96,7 @@ def run(ctx):
         log = []
         got = Evaluator(mod, inline=set(), call_policy=opaque_policy(log), branch_policy=N.skip_checks_policy) \
             .call_function("ubi_to_u", [ubi])
-        c_ = Opaque("ubi_to_cell(%s)" % vkey(ubi), (6,))
+        c_ = Opaque("a_to_cell(%s)" % vkey(transposed(ubi)), (6,))
         Bc = Opaque("form_b_mat(%s)" % c_.key(), (3, 3))
         want = N.ref("transpose(dot(B, X))/tau", {"B": Bc, "X": ubi, "tau": tau})
         okc = same(got, want)
